@@ -2,6 +2,9 @@
 
 COMMON_ASSUME = ['generators reach the behaviour a code change affects (correspondence is differential testing, not proof)']
 
+# the real runtime (goroutines, timers): never cached, its interleavings differ from run to run
+RUNTIME = {'name': 'runtime', 'quick_args': ['-n', '8'], 'thorough_args': ['-n', '150'], 'cache': False}
+
 PROPS = {
     'C06': {
         'engines': [{'name': 'quorum', 'quick_args': ['-n', '800'], 'thorough_args': ['-n', '12000']}],
@@ -14,9 +17,12 @@ PROPS = {
         'assumptions': COMMON_ASSUME,
     },
     'C19': {
-        'engines': [{'name': 'timeout'}],
-        'trusted_base': ['theorems in coq/props/C19.v about coq/theories/Timeout.v'],
-        'assumptions': COMMON_ASSUME + ['base timeout positive and at most MaxInt64 ns', 'time.AfterFunc fires once, not before its duration (Go runtime)'],
+        'engines': [{'name': 'timeout'}, RUNTIME],
+        'trusted_base': ['theorems in coq/props/C19.v about coq/theories/Timeout.v, Timer.v (proofs in TimerFacts.v) and Loops.v (LoopsFacts.v)'],
+        'assumptions': COMMON_ASSUME + ['base timeout positive and at most MaxInt64 ns', 'time.AfterFunc fires once, not before its duration, and Timer.Stop reports whether it prevented the firing (Go runtime)',
+                                        'Go select picks any ready case (the model lets a cancelled instance that is past its first select still deliver)',
+                                        'part (b): Timer.v is tied to the code by the runtime engine\'s observations of the real trigger (arm / trigger / election order and timing), not by a step-by-step comparison'],
+        'notes': ['"eventually delivers" is proved as enabledness (a fired, un-superseded instance can always hand over its trigger); that the Go scheduler runs it is observed, not proved'],
     },
     'C17': {
         'engines': [{'name': 'filter'}],
@@ -24,10 +30,11 @@ PROPS = {
         'assumptions': COMMON_ASSUME + ['heights passed to onNewConsensusRound only take effect when increasing (SetHeightAndResetView, proved in C13)', 'reading of the statement: "before it" = before the node starts H (DESIGN.md C17)'],
     },
     'C15': {
-        'engines': [{'name': 'registry'}],
-        'trusted_base': ['theorems in coq/props/C15.v about coq/theories/Contexts.v (proofs in ContextsFacts.v)'],
-        'assumptions': COMMON_ASSUME + ['context.WithCancel semantics of the Go standard library (a child is done iff it or its parent was cancelled)'],
-        'notes': ['part (a) registry laws: proved for all op sequences; part (b) loop discipline: see Loops model when present'],
+        'engines': [{'name': 'registry'}, RUNTIME],
+        'trusted_base': ['theorems in coq/props/C15.v about coq/theories/Contexts.v (proofs in ContextsFacts.v) and Loops.v (proofs in LoopsFacts.v)'],
+        'assumptions': COMMON_ASSUME + ['context.WithCancel semantics of the Go standard library (a child is done iff it or its parent was cancelled)',
+                                        'Loops.v abstracts the protocol to its effect on (height, view), timer and SPI calls; it is tied to the code by the runtime engine (trace acceptor Runtime.v + monitors), the registry by the registry engine'],
+        'notes': ['part (a) registry laws: proved for all op sequences; part (b) loop discipline: proved for all interleavings of the two-goroutine model; "results under a cancelled context are not broadcast" is checked on the implementation by the runtime and world engines (ctx_ok guards in Term.v)'],
     },
     'C07': {
         'engines': [{'name': 'world', 'quick_args': ['-n', '60'], 'thorough_args': ['-n', '1200']},
@@ -69,16 +76,31 @@ PROPS = {
         'assumptions': COMMON_ASSUME + ['signature flags of the proof nodes = KeyManager.VerifyConsensusMessage over the proof\'s block reference bytes; seed flag = KeyManager.VerifyRandomSeed against the seed derived from the previous proof', 'committee ids pairwise distinct, total weight < 2^64', 'ValidateBlockCommitment is a function of (height, block, hash)'],
     },
     'C12': {
-        'engines': [{'name': 'world', 'quick_args': ['-n', '60'], 'thorough_args': ['-n', '1200']}, {'name': 'vbc', 'quick_args': ['-n', '1500'], 'thorough_args': ['-n', '20000']}, {'name': 'wire', 'quick_args': ['-n', '120'], 'thorough_args': ['-n', '2500']}],
+        'engines': [{'name': 'world', 'quick_args': ['-n', '60'], 'thorough_args': ['-n', '1200']}, {'name': 'vbc', 'quick_args': ['-n', '1500'], 'thorough_args': ['-n', '20000']}, {'name': 'wire', 'quick_args': ['-n', '120'], 'thorough_args': ['-n', '2500']}, RUNTIME],
         'corr_modules': ['Term', 'VBC', 'Wire', 'WireLH'],
         'trusted_base': ['theorems in coq/props/C12.v about coq/theories/Term.v, VBC.v, Leader.v (proofs in TermFacts.v)'],
         'assumptions': COMMON_ASSUME + ['Go recover() catches the run-time panics of slicing / nil dereference inside the guarded sections', 'membuffers unsafe reads stay inside the backing array for the byte strings tried (memory unsafety is not expressible in the model)'],
         'notes': ['runtime fatal errors (stack overflow, OOM on hostile sizes) are outside the model'],
     },
     'C13': {
-        'engines': [{'name': 'world', 'quick_args': ['-n', '60'], 'thorough_args': ['-n', '1200']}, {'name': 'statehv'}],
+        'engines': [{'name': 'world', 'quick_args': ['-n', '60'], 'thorough_args': ['-n', '1200']}, {'name': 'statehv'}, RUNTIME],
         'corr_modules': ['Term'],
         'trusted_base': ['theorems in coq/props/C13.v about coq/theories/Term.v (proofs in NodeFacts.v, TermFacts.v) and Contexts.v'],
         'assumptions': COMMON_ASSUME + ['committee totals < 2^64', 'the consumer\'s ValidateBlockProposal / ValidateBlockCommitment only accept blocks whose height is the height being decided (then the committed block has the term\'s height)', 'all State writes and callbacks happen on the worker goroutine (checked structurally by the runtime engine, not by the theorem)'],
+    },
+    'C14': {
+        'engines': [RUNTIME, {'name': 'world', 'quick_args': ['-n', '60'], 'thorough_args': ['-n', '1200']}],
+        'corr_modules': ['Term'],
+        'trusted_base': ['theorems in coq/props/C14.v about coq/theories/Loops.v (proofs in LoopsFacts.v), Contexts.v and Term.v (start_term)'],
+        'assumptions': COMMON_ASSUME + ['the Go scheduler eventually runs an enabled step of each goroutine and select eventually picks a ready case (the theorems give enabledness and the state after the step; the runtime engine observes that accepted syncs do take effect)',
+                                        'Loops.v abstracts the protocol to its effect on (height, view), timer and SPI calls; it is tied to the code by the runtime engine (trace acceptor Runtime.v + monitors); the sequential node model (Term.v, ESync) by the world engine'],
+    },
+    'C16': {
+        'engines': [RUNTIME],
+        'trusted_base': ['theorems in coq/props/C16.v about coq/theories/Loops.v, Timer.v (proofs in LoopsFacts.v, TimerFacts.v)'],
+        'assumptions': COMMON_ASSUME + ['the Go scheduler eventually runs an enabled step and select eventually picks the ready ctx.Done case ("within a bounded time" is observed by the runtime engine, the theorem bounds the number of steps)',
+                                        'goroutines of the library are the main loop, the worker loop and one per fired timer instance (govnr supervision goroutines end with their loops); goroutine accounting is a runtime observation',
+                                        'SPI implementations return when their context is done (the property\'s premise for blocking calls)'],
+        'notes': ['partial in the sense of the brief: the model cannot exhibit wall-clock bounds or leaked goroutines; those are observed on the real runtime at random cancellation points'],
     },
 }
